@@ -74,7 +74,7 @@ func interpreterBuiltinNames() []string {
 
 func c04MatrixCases(yield func(c04Case) bool) {
 	emit := func(label, body string) bool {
-		src := "! helper(x: int): int {\n  > x\n}\n@ GET /m {\n" + body + "\n}\n"
+		src := "! helper(x: int): int {\n  > x\n}\n! okArith(x: any): bool {\n  > (x - 1) / 2 >= 0 || true\n}\n! okIndex(x: any): bool {\n  > x[5] == x[5]\n}\n! okField(x: any): bool {\n  > x.f.g == null || true\n}\n! isNull(x: any): bool {\n  > x == null\n}\n@ GET /m {\n" + body + "\n}\n"
 		for _, mode := range []string{"compiled", "interpreted"} {
 			if !yield(c04Case{Label: label, Src: src, Mode: mode}) {
 				return false
@@ -108,6 +108,11 @@ func c04MatrixCases(yield func(c04Case) bool) {
 			"call-self": "  > a(1)",
 			"method":    "  > a.length()",
 			"await":     "  $ r = await a\n  > r",
+			// `? f(x)`: a validation statement; a fault inside the checked call is a fault, not a refusal
+			"validate-arith": "  ? okArith(a)\n  > 1",
+			"validate-index": "  ? okIndex(a)\n  > 1",
+			"validate-field": "  ? okField(a)\n  > 1",
+			"validate-false": "  ? isNull(a)\n  > 1",
 		}
 		keys := make([]string, 0, len(stmts))
 		for k := range stmts {
